@@ -160,7 +160,7 @@ class Graph:
         return path
 
 
-# Abs = <<scheme, pre, ver, FsKey, pc, idx, used, res, seen classes, TmpKey, split>>
+# Abs = <<scheme, pre, ver, FsKey, pc, idx, used, res, seen classes, TmpKey, split, proc>>
 def _case_of(init, path, cid, origin):
     first = json.loads(init)
     scheme, pre, ver, _, pcs = first[:5]
@@ -171,6 +171,10 @@ def _case_of(init, path, cid, origin):
         steps.append([edge[0], after[3], after[9]])
     return {"id": cid, "scheme": scheme, "pre": pre, "ver": ver,
             "nruns": sum(1 for p in pcs if p != "off"), "split": bool(first[10]),
+            "proc": first[11],
+            # how the runs of one process are realised: kernels of one PSy
+            # layer (even ids) or successive generates (odd ids)
+            "mode": "layer" if cid % 2 == 0 else "gen",
             "sched": [edge[0][0] for edge in path], "origin": origin,
             "model": steps, "model_end": json.loads(path[-1][1]), "model_bad": bad}
 
@@ -264,6 +268,7 @@ def _counterexample(res):
     return {"scheme": json.loads(field(first, "scheme")), "pre": int(field(first, "pre")),
             "ver": _tlc_value(field(first, "ver")),
             "split": field(first, "split") == "TRUE",
+            "proc": _tlc_value(field(first, "proc")), "mode": "gen",
             "nruns": sum(1 for p in pcs if p != "off"), "sched": sched}
 
 
@@ -301,7 +306,27 @@ def _prepare():
             refs[ver] = outs[0][1]
     if refs[1] == refs[2] or not refs[1]:
         raise core.MachineryError("kernel versions are not distinguishable")
-    _PREP["info"], _PREP["refs"], _PREP["blob"] = info, refs, blob
+    # runs of one process as kernel objects of ONE PSy layer: same kernel text
+    with contextlib.redirect_stdout(sink):
+        info2 = shim.parse_layer_subject()
+        _, kerns = shim.make_layer(info2, [1, 2, 1], blob)
+        texts = []
+        for kern in kerns:
+            # one empty directory per kernel object: this check of the machinery
+            # must not depend on the property under test
+            tmp = core.mktemp("pv-c29-ref-")
+            try:
+                shim.set_config(tmp, "multiple")
+                kern.rename_and_write()
+                with open(os.path.join(tmp, shim.SUBJECT["base"] + "_0_mod.f90")) as fin:
+                    texts.append(fin.read())
+            finally:
+                shutil.rmtree(tmp, ignore_errors=True)
+    if texts != [refs[1], refs[2], refs[1]]:
+        raise core.MachineryError("kernel objects of the layer subject do not write "
+                                  "the reference kernel texts")
+    shim.ProcState.init()
+    _PREP["info"], _PREP["refs"], _PREP["blob"], _PREP["info2"] = info, refs, blob, info2
 
 
 def _replay_chunk(cases):
@@ -310,7 +335,8 @@ def _replay_chunk(cases):
     for case in cases:
         try:
             with contextlib.redirect_stdout(sink):
-                out.append(shim.replay(case, _PREP["info"], _PREP["refs"], _PREP["blob"]))
+                out.append(shim.replay(case, _PREP["info"], _PREP["refs"], _PREP["blob"],
+                                       _PREP["info2"]))
         except shim.Stall as err:
             out.append({"id": case["id"], "stall": str(err)})
         except Exception as err:      # pylint: disable=broad-except
@@ -323,7 +349,8 @@ def _replay_chunk(cases):
 
 
 def _replay_all(cases, procs):
-    slim = [{k: c[k] for k in ("id", "scheme", "pre", "ver", "nruns", "split", "sched")}
+    slim = [{k: c[k] for k in ("id", "scheme", "pre", "ver", "proc", "mode", "nruns",
+                               "split", "sched")}
             for c in cases]
     size = max(1, min(25, len(slim) // (procs * 4) or 1))
     chunks = [slim[i:i + size] for i in range(0, len(slim), size)]
@@ -379,7 +406,7 @@ def _compare_with_model(case, trace):
 
 def _tlc_case(trace):
     return {"id": trace["id"], "scheme": trace["scheme"], "pre": trace["pre"],
-            "ver": trace["ver"], "split": bool(trace["split"]),
+            "ver": trace["ver"], "proc": trace["proc"], "split": bool(trace["split"]),
             "nruns": trace["nruns"], "fs0": trace["fs0"],
             "events": [{k: e[k] for k in ("run", "call", "name", "res", "cls",
                                           "fs", "tmps", "stray")}
@@ -429,6 +456,7 @@ def _corruptions(traces, by_id):
             case = by_id[trace["id"]]
             if (trace["scheme"] == scheme and trace["nruns"] == 2 and not trace["split"]
                     and trace["pre"] == 0 and trace["ver"][:2] == [1, 1]
+                    and trace["proc"][:2] == [1, 2]
                     and not case["model_bad"] and trace["id"] != 0
                     and all(f["res"] == "ok" for f in trace["fin"][:2])):
                 return trace
@@ -462,7 +490,8 @@ def _corruptions(traces, by_id):
 
 def _brief(trace):
     return {"id": trace["id"], "scheme": trace["scheme"], "pre": trace["pre"],
-            "ver": trace["ver"], "nruns": trace["nruns"], "split": trace["split"],
+            "ver": trace["ver"], "proc": trace["proc"], "mode": trace["mode"],
+            "nruns": trace["nruns"], "split": trace["split"],
             "sched": trace["sched"],
             "events": [[e["run"], e["call"], e["name"], e["res"], e["cls"]]
                        for e in trace["events"]],
@@ -535,9 +564,9 @@ def run(tier):
     else:
         graph = Graph(res)
         if quick:
-            new, info = _schedules(graph, 130, 30, 30, 150, rnd, next_id)
+            new, info = _schedules(graph, 130, 30, 15, 150, rnd, next_id)
         else:
-            new, info = _schedules(graph, 1000, 200, 200, 1500, rnd, next_id)   # ~13k real replays
+            new, info = _schedules(graph, 1000, 100, 40, 1500, rnd, next_id)   # ~13k real replays
         cases += new
         sched_info[cfg] = info
     cov["schedules"] = sched_info
@@ -606,6 +635,7 @@ def run(tier):
         if trace["id"] == 0 or (known is None and tally[(clause, known)] <= 5):
             print(f"VERDICT trace={trace['id']} origin={case['origin']} "
                   f"scheme={trace['scheme']} ver={trace['ver'][:trace['nruns']]} "
+                  f"proc={trace['proc'][:trace['nruns']]} mode={trace['mode']} "
                   f"pre={trace['pre']} sched={trace['sched']} fails={clause} "
                   f"finding={known}")
     for (clause, known), num in sorted(tally.items(), key=str):
@@ -628,9 +658,11 @@ def run(tier):
                                    "tlc_verdict": verdicts.get(smp["id"], "ok")})
     cov["evaluations"] = len(traces)
     cov["distinct_nontrivial"] = len({(t["scheme"], t["pre"], tuple(t["ver"]),
+                                       tuple(t["proc"]), t["mode"],
                                        t["nruns"], t["split"], tuple(t["sched"]))
                                       for t in traces if t["nruns"] > 1})
-    cov["rule"] = ("a case is (scheme, earlier file, kernel version per run, number "
+    cov["rule"] = ("a case is (scheme, earlier file, kernel version per run, process "
+                   "per run + how same-process runs are realised, number "
                    "of runs, split writes, schedule); distinct = distinct tuples with "
                    ">= 2 runs; every case is replayed with real threads and its "
                    "recorded trace validated by TLC")
@@ -640,10 +672,15 @@ def run(tier):
                               "schedules.configurations_exhaustive, the others sampled "
                               "(+ every transition of the 2-run graphs)")
     return out.finish(cov, assumptions=[
-        "one transformed kernel per run (LFRic testkern via 1_single_invoke.f90; "
-        "version 1 = ACCRoutineTrans, version 2 = Dynamo0p3KernelConstTrans)",
-        "runs are threads of one interpreter; the output directory is the only state "
-        "rename_and_write shares (Config is identical for all runs)",
+        "a run = one rename_and_write call on its own transformed kernel object (LFRic "
+        "testkern; version 1 = ACCRoutineTrans, version 2 = Dynamo0p3KernelConstTrans); "
+        "runs of one process follow each other in one thread: as successive psy.gen of "
+        "fresh PSy objects (1_single_invoke.f90) or as kernel objects of ONE PSy layer "
+        "(4.8_multikernel_invokes.f90) whose rename_and_write calls follow each other",
+        "processes are threads of one interpreter; per-process memory is emulated: every "
+        "mutable class-level attribute of CodedKern (bases, subclasses) and module-level "
+        "attribute of psyclone.psyGen gets a private copy per process, installed "
+        "whenever a run of that process executes (Config is identical for all runs)",
         "linearisation points are the calls psyGen makes through `os`/`open`; "
         "run-local work between two calls is atomic with the preceding call",
         "a file-system call is atomic (`split` models a write seen in two halves); "
@@ -662,8 +699,10 @@ def replay_file(path):
     case.setdefault("split", False)
     case["id"] = 1
     _prepare()
-    trace = _replay_chunk([{k: case[k] for k in ("id", "scheme", "pre", "ver", "nruns",
-                                                  "split", "sched")}])[0]
+    case.setdefault("proc", [1, 2, 3])
+    case.setdefault("mode", "gen")
+    trace = _replay_chunk([{k: case[k] for k in ("id", "scheme", "pre", "ver", "proc",
+                                                  "mode", "nruns", "split", "sched")}])[0]
     if "stall" in trace:
         raise core.MachineryError(trace["stall"])
     for event in trace["events"]:
